@@ -1,7 +1,7 @@
 import Ntrip.Proofs.Translated
 import Ntrip.Proofs.Range
 import Ntrip.Generated.Tables
-import Ntrip.Proofs.F64
+import Ntrip.Proofs.F64Doppler
 /-!
 # C08 — ranges, phase ranges and range rates equal the standard's formulas
 
@@ -10,12 +10,13 @@ Exact layer (proved): the scaled integers the cells compute are exactly the stan
 markers behave as stated, MSM4 and MSM7 encodings of the same quantity agree, and the
 frequency tables are the documented bands (regenerated from the source).
 
-Float layer: the range in metres (`float64(scaled)/2^29 * 299792.458`, MSM4 and MSM7) and the
-range rate in m/s (`float64(scaled)/10000`) are modelled in exact binary64 arithmetic (`F64`) and
-proved accurate to 2^-51 resp. 2^-53 of the value for every input; the model is compared bit for
-bit with the hardware results.  The phase range in cycles and the Doppler (two further float
-divisions by a wavelength that is itself a rounded quotient) remain PARTIAL: compared by the
-harness with exact rational arithmetic to within 8 ulp on every generated cell.
+Float layer: all four reported quantities are modelled in exact binary64 arithmetic (`F64`) and
+proved accurate for every input: the range in metres (`float64(scaled)/2^29 * 299792.458`, MSM4
+and MSM7) to 2^-51, the range rate in m/s (`float64(scaled)/10000`) to 2^-53, the phase range in
+cycles (`fl(fl(scaled/2^31 · 299792.458) / wavelength)`) and the Doppler in Hz
+(`-fl(fl(scaled/10000) / wavelength)`), with `wavelength = fl(299792458 / f)`, to 2^-50 for every
+carrier frequency of the regenerated tables.  The model is compared bit for bit with the hardware
+results on every generated cell.
 -/
 namespace Ntrip.C08
 
@@ -211,6 +212,36 @@ theorem rate_accurate (scaled : Int) (h : scaled.natAbs < 2 ^ 53) :
   F64.rate_accuracy scaled h
 
 example : F64.ieee (rangeMetres (81 * 2 ^ 29 + 435 * 2 ^ 19 - 26835)) = (false, 1047, 6552651041628382) := by decide +kernel
+
+/-- A regenerated frequency table is covered: it was read (`some`), its default is "no frequency"
+    (0), and every row's frequency is positive and one of the ten carrier frequencies. -/
+def tableCovered : Option (List (Nat × Int) × Int) → Bool
+  | some (rows, dflt) => dflt == 0 && rows.all (fun r => decide (0 < r.2) && F64.carrierFrequencies.contains r.2.toNat)
+  | none => false
+
+/-- Every frequency in the regenerated signal tables is one of the ten carrier frequencies the
+    accuracy theorems cover. -/
+theorem frequencies_covered :
+    tableCovered Gen.utils_getSignalFrequencyGPS = true ∧ tableCovered Gen.utils_getSignalFrequencyGalileo = true ∧
+    tableCovered Gen.utils_getSignalFrequencyGlonass = true ∧ tableCovered Gen.utils_getSignalFrequencyBeidou = true := by
+  refine ⟨by decide +kernel, by decide +kernel, by decide +kernel, by decide +kernel⟩
+
+/-- **Phase range in cycles, to within floating-point rounding**: for every carrier frequency of
+    the tables and every aggregate phase range (units 2^-31 ms), the computed float is within 2^-50
+    of `scaled · f / (2^31 · 1000)` — i.e. of (whole + frac/1024 + phase·2^-31) ms × c ÷ wavelength. -/
+theorem cycles_accurate (f : Nat) (hf : f ∈ F64.carrierFrequencies) (scaled : Nat) (h1 : 1 ≤ scaled) (h : scaled < 2 ^ 41) :
+    2 ^ 50 * ((F64.phaseCycles scaled f).scaled 128 * (2 ^ 31 * 1000) - scaled * f * 2 ^ 128) ≤ scaled * f * 2 ^ 128 ∧
+    -((scaled : Int) * f * 2 ^ 128) ≤ 2 ^ 50 * ((F64.phaseCycles scaled f).scaled 128 * (2 ^ 31 * 1000) - scaled * f * 2 ^ 128) :=
+  F64.cycles_accuracy f hf scaled h1 h
+
+/-- **Doppler in Hz, to within floating-point rounding**: within 2^-50 of `-(scaled/10000) · f / c`. -/
+theorem doppler_accurate (f : Nat) (hf : f ∈ F64.carrierFrequencies) (scaled : Int) (h : scaled.natAbs < 2 ^ 53) (h0 : scaled ≠ 0) :
+    2 ^ 50 * ((F64.dopplerHz scaled f).scaled 141 * (10000 * 299792458) + scaled * f * 2 ^ 141) ≤ (scaled.natAbs : Int) * f * 2 ^ 141 ∧
+    -((scaled.natAbs : Int) * f * 2 ^ 141) ≤ 2 ^ 50 * ((F64.dopplerHz scaled f).scaled 141 * (10000 * 299792458) + scaled * f * 2 ^ 141) :=
+  F64.doppler_accuracy f hf scaled h h0
+
+/-- A zero aggregate gives exactly zero (no rounding involved). -/
+example : F64.phaseCycles 0 1575420000 = { m := 0, e := 0 } ∧ (F64.dopplerHz 0 1575420000).m = 0 := by decide +kernel
 
 /-- **Translator tie**: the Lean functions that `extract/translate.go` regenerates from the Go
     source of `getScaledValue`, `GetScaledRange`, `GetScaledPhaseRange` and
